@@ -7,7 +7,8 @@ Model of the file-splitting logic of `plasTeX/Renderers/__init__.py`:
 * `Renderer.cacheFilenames` (pre-order walk over `childNodes`, requesting the names in document order),
 * `Renderer.render` (split level from the configuration; a template without blank and without `[` forces
   level −10; generator created; names cached; `str(document)`),
-* `Renderable.__str__` (only `DOCUMENT_LEVEL` children of the document node; text nodes inline; a child with a
+* `Renderable.__str__` (only `DOCUMENT_LEVEL` children of the document node; text nodes inline; a node with a unicode
+  equivalent (`node.str`, constructor `uni`) is printed as that text without template, children or file; a child with a
   file name is wrapped by its layout, written to its file and contributes *nothing* to the parent's string),
 * `SectionUtils.footnotes` (a footnote belongs to the nearest enclosing node with `level < ENDSECTIONS_LEVEL`
   that has a file name).
@@ -61,12 +62,14 @@ structure Attrs where
 inductive Tree where
   | text (m : Nat)
   | elem (a : Attrs) (kids : List Tree)
+  | uni (a : Attrs) (kids : List Tree)     -- an element with a unicode equivalent (`node.str is not None`: `\\S`, `\\ldots`, …)
   deriving Repr
 
 /-- the tree after `cacheFilenames`: every element carries its cached `r.files[node]` (or nothing) -/
 inductive ATree (ν : Type) where
   | text (m : Nat)
   | elem (a : Attrs) (file : Option ν) (kids : List (ATree ν))
+  | uni (a : Attrs) (file : Option ν) (kids : List (ATree ν))
   deriving Repr
 
 /-- the filename generator as the renderer uses it -/
@@ -98,6 +101,13 @@ def assign {σ ν} (g : Gen σ ν) (level : Int) : σ → Tree → Except Err (A
       match assignL g level s1 ks with
       | .error e => .error e
       | .ok (ks', s2) => .ok (.elem a f ks', s2)
+  | s, .uni a ks =>       -- `cacheFilenames` does not look at `str`: same walk, same request
+    match filenameOf g level s a with
+    | .error e => .error e
+    | .ok (f, s1) =>
+      match assignL g level s1 ks with
+      | .error e => .error e
+      | .ok (ks', s2) => .ok (.uni a f ks', s2)
 /-- `for child in node.childNodes: self.cacheFilenames(child)` -/
 def assignL {σ ν} (g : Gen σ ν) (level : Int) : σ → List Tree → Except Err (List (ATree ν) × σ)
   | s, [] => .ok ([], s)
@@ -115,6 +125,7 @@ inductive Tok where
   | txt (m : Nat)        -- a text node (`r.textDefault(child)`)
   | op (tag : Nat) | cl (tag : Nat)      -- the node's template around its children
   | mark (tag : Nat)                      -- a footnote's template: the mark only
+  | uni (tag : Nat)                       -- `r.textDefault(node.str)`: the unicode equivalent of a node
   | lop (tag : Nat) | lcl (tag : Nat)    -- the layout around a file's content
   | fop (tag : Nat) | fcl (tag : Nat)    -- the layout around one footnote's text
   deriving DecidableEq, Repr
@@ -147,6 +158,9 @@ def child {ν} : ATree ν → List Tok × List (File ν)
       -- `child.footnotes`, rendered by the layout after the content
       let fo : List Tok × List (File ν) := if a.level < ENDSECTIONS_LEVEL then footOutL ks else ([], [])
       ([], val.2 ++ fo.2 ++ [(name, .lop a.tag :: (val.1 ++ fo.1 ++ [.lcl a.tag]))])
+  -- `uni = child.str; if uni is not None: s.append(r.textDefault(uni)); continue` — before the file name is looked at:
+  -- no template, no children, no file (even if a name was cached for the node)
+  | .uni a _ _ => ([.uni a.tag], [])
 /-- the footnotes registered in this subtree that an enclosing file owns, as the owner's layout prints them -/
 def footOut {ν} : ATree ν → List Tok × List (File ν)
   | .text _ => ([], [])
@@ -156,6 +170,11 @@ def footOut {ν} : ATree ν → List Tok × List (File ν)
       let o := strKids ks
       (below.1 ++ (.fop a.tag :: (o.1 ++ [.fcl a.tag])), below.2 ++ o.2)
     else below
+  | .uni a file ks =>
+    -- footnotes below the node are registered all the same; `str(footnote)` of a footnote with a unicode equivalent
+    -- starts with the same short circuit
+    let below : List Tok × List (File ν) := if claims a file then ([], []) else footOutL ks
+    if a.foot then (below.1 ++ [.fop a.tag, .uni a.tag, .fcl a.tag], below.2) else below
 def footOutL {ν} : List (ATree ν) → List Tok × List (File ν)
   | [] => ([], [])
   | c :: cs =>
@@ -167,6 +186,7 @@ end
 def ATree.isDocLevel {ν} : ATree ν → Bool
   | .text _ => false      -- text nodes have `level = CHARACTER_LEVEL`
   | .elem a _ _ => a.level == DOCUMENT_LEVEL
+  | .uni a _ _ => a.level == DOCUMENT_LEVEL
 
 def hasBlankOrBracket (template : List Char) : Bool :=
   template.any fun c => c == ' ' || c == '['
